@@ -17,7 +17,9 @@ EXPLANATION = (
     "SymPy state (stores to attributes/subscripts of imported objects, calls of the frozen mutator list, unscoped evaluation "
     "toggles) and the per-prefix name counters are written only by next_id, by +1; I4 no two symbolic wrappers of one class with "
     "equal display strings wrap different symbols (the wrapper class keys SymPy's symbol cache by display string); I5 every "
-    "function symbol declared with n arguments is applied to n arguments at module level (a mismatch raises at import). "
+    "function symbol declared with n arguments is applied to n arguments at module level (a mismatch raises at import); I6 no "
+    ".subs({...}) chains two replacements of equal SymPy rank (plain symbols), where one entry's value re-introduces the other's key - "
+    "SymPy orders such entries by the symbols' generated names, so the result depends on the SYM<n> counter state. "
     "NOT decided: that derivation asserts and solve(...)[k]/simplify pick the same branch under every state of the SYM<n> counters.")
 ASSUMPTIONS = [
     "imports executed inside functions are not import-time dependencies",
@@ -228,6 +230,68 @@ def check(run: Run) -> None:
     run.floor("I5", napps, 200, "function-symbol applications")
     run.floor("I2", nattr, 1000, "module attribute reads")
     run.sample({"rule": "I5", "applications_checked": napps})
+
+    # ---- I6 chained substitutions whose order is decided by generated names
+    run.rule("I6", "no .subs({...}) applies, sequentially and in name order, two replacements of equal rank of which one rewrites the other's result")
+    nsubs = 0
+    for name in sorted(cat):
+        m = src.mods[name]
+        env = w.env(name)
+        it = Interp(w, env)
+
+        def idents(e: ast.AST) -> set:
+            out = set()
+            for x in ast.walk(e):
+                if isinstance(x, (ast.Name, ast.Attribute)):
+                    v = it.ev(x)
+                    if v.ident:
+                        out.add(v.ident)
+            return out
+
+        def rank(k: ast.AST):
+            """SymPy orders a dict of replacements by (count_ops, number of args, name); keys of equal rank are tie-broken by name"""
+            if isinstance(k, (ast.Name, ast.Attribute)):
+                v = it.ev(k)
+                if v.ident and v.kind in ("expr", "any"):
+                    return ("symbol", v.ident)
+                if v.kind == "func":
+                    return ("function-class", norm(k))
+                return None
+            if isinstance(k, ast.Call) and not k.keywords:
+                v = it.ev(k.func)
+                if v.kind == "func" and all(isinstance(a, (ast.Name, ast.Attribute)) for a in k.args):
+                    return (f"application/{len(k.args)}", norm(k))
+            return None
+
+        for call in ast.walk(m.tree):
+            if not (isinstance(call, ast.Call) and isinstance(call.func, ast.Attribute) and call.func.attr == "subs" and len(call.args) >= 1
+                    and isinstance(call.args[0], ast.Dict) and len(call.args[0].keys) >= 2):
+                continue
+            if any(k.arg == "simultaneous" and isinstance(k.value, ast.Constant) and k.value.value is True for k in call.keywords):
+                continue
+            d = call.args[0]
+            nsubs += 1
+            ranks = [rank(k) if k is not None else None for k in d.keys]
+            reported = False
+            for i, ri in enumerate(ranks):
+                if ri is None or ri[0] != "symbol" or reported:
+                    continue
+                vi = it.ev(d.values[i])
+                if isinstance(d.values[i], (ast.Name, ast.Attribute)) and vi.ident == ri[1]:
+                    continue  # identity entry S: S
+                for j, rj in enumerate(ranks):
+                    if i == j or rj is None or rj[0] != ri[0]:
+                        continue
+                    if ri[1] in idents(d.values[j]):
+                        run.violate("I6", f"{name}:subs:{norm(d.keys[i], 50)}<-{norm(d.keys[j], 50)}", m, call,
+                                    f"`{norm(d.keys[i], 50)}` is replaced in the same .subs({{...}}) whose entry `{norm(d.keys[j], 50)}: {norm(d.values[j], 40)}` "
+                                    f"introduces it again; both keys are plain symbols, so SymPy applies them in the order of their generated names (SYM<n>, compared "
+                                    f"as strings): the result, and whether this module imports at all, depends on how many symbols were created before "
+                                    f"(use simultaneous=True or separate .subs calls)")
+                        reported = True
+                        break
+    run.ob("I6", "dict-substitutions", n=nsubs)
+    run.floor("I6", nsubs, 300, "dict substitutions")
 
     # ---- informational: order-sensitive projections (NOT decided, listed for a dynamic technique to aim at)
     proj = []
